@@ -23,6 +23,7 @@ def run_active(pid, prefix, rule, assumptions, floor):
         'adverse_events': int(tot.get('adverse_events', 0)), 'readonly_histories': int(tot.get('readonly_histories', 0)),
         'handler_loop_iterations': int(tot.get('steps', 0)), 'request_results': tot.get('request_results', {}),
         'syns_delivered_together_with_following_symbols': int(tot.get('syn_glued_with_following_symbols', 0)),
+        'command_echo_delivered_together_with_the_reaction': int(tot.get('echo_glued_with_reaction', 0)),
         'alarms_of_other_properties_ignored_here': int(tot.get('other_property_alarms', 0)),
         'samples': tot.get('samples', []),
     })
